@@ -1,6 +1,7 @@
 // C44 conformance harness: calls, through the generic interface (dlopen), the small-strain behaviours generated from
 // harness/mfront/VfFrameIso.mfront (isotropic elasticity), VfFrameOrtho.mfront (orthotropic elasticity, one library entry
-// per orthotropic axes convention) and VfFramePlastic.mfront (von Mises plasticity, linear isotropic hardening) on the cases of
+// per orthotropic axes convention), VfFramePlastic.mfront (von Mises plasticity, linear isotropic hardening) and VfFrameTwo.mfront
+// (two gradients and two fluxes, rotation helpers only) on the cases of
 // spec/mfront/BehaviourFramesGen.tla and logs abstracted observations.  Nothing is judged here.
 //   behaviourframes <lib.so> <cases.ndjson> <obs.ndjson>
 // EXACT  : round(k x) with a flag `tight' (|k x - round| <= 1e-8 max(1, |k x|)), k given by the case (denominator of the
@@ -499,6 +500,58 @@ static void treatRotOrtho(const Json& c, Json& r) {
   r.set("allok", Json(b.allok)).set("ncalls", Json(b.ncalls));
 }
 
+// kind "rottwo": rotation helpers of an orthotropic behaviour with two tensorial gradients and two tensorial fluxes, for one
+// integration point and for an array of two integration points (no integration is performed)
+static void treatRotTwo(const Json& c, Json& r) {
+  const auto p = c["beh"].asStr() + "_" + c["hyp"].asStr();
+  const int ns = nsOf(c["hyp"].asStr());
+  const auto rotG = sym<Rot>(p + "_rotateGradients"), rotF = sym<Rot>(p + "_rotateThermodynamicForces");
+  const auto rotGA = sym<RotA>(p + "_rotateArrayOfGradients"), rotFA = sym<RotA>(p + "_rotateArrayOfThermodynamicForces");
+  const auto q = c["q"].asInts();
+  const ld d = ld(q[0] * q[0] + q[1] * q[1] + q[2] * q[2] + q[3] * q[3]);
+  const M3 Q = quat(q);
+  double rv[9];
+  for (int i = 0; i < 3; ++i)
+    for (int j = 0; j < 3; ++j) rv[3 * i + j] = static_cast<double>(Q[i][j]);
+  const Vec e1 = vecOf(c["e1"]), e2 = vecOf(c["e2"]);
+  auto store = [&](std::vector<double>& v, const int o, const Vec& e, const ld f) {
+    for (int i = 0; i < ns; ++i) v[o + i] = static_cast<double>(f * e[i] * (i < 3 ? ld(1) : SQ2));
+  };
+  auto load = [&](const std::vector<double>& v, const int o) {
+    Vec e(ns);
+    for (int i = 0; i < ns; ++i) e[i] = i < 3 ? ld(v[o + i]) : ld(v[o + i]) / SQ2;
+    return e;
+  };
+  const double SENT = -7777.25;
+  std::vector<double> p1(2 * ns), p2(2 * ns), o1(2 * ns, SENT), o2(2 * ns, SENT);
+  store(p1, 0, e1, 1);
+  store(p1, ns, e2, 1);
+  store(p2, 0, e2, -2);   // second integration point: other values
+  store(p2, ns, e1, 3);
+  bool tg = true, tf = true;
+  rotG(o1.data(), p1.data(), rv);
+  rotG(o2.data(), p2.data(), rv);
+  r.set("g1", ints(load(o1, 0), d * d, tg)).set("g2", ints(load(o1, ns), d * d, tg)).set("tight_g", Json(tg));
+  std::vector<double> in(4 * ns), out(4 * ns, SENT);
+  std::copy(p1.begin(), p1.end(), in.begin());
+  std::copy(p2.begin(), p2.end(), in.begin() + 2 * ns);
+  rotGA(out.data(), in.data(), rv, 2);
+  bool ag = true;
+  for (int i = 0; i < 2 * ns; ++i) ag = ag && out[i] == o1[i] && out[2 * ns + i] == o2[i];
+  r.set("arrays_g", Json(ag));
+  std::fill(o1.begin(), o1.end(), SENT);
+  std::fill(o2.begin(), o2.end(), SENT);
+  std::fill(out.begin(), out.end(), SENT);
+  rotF(o1.data(), p1.data(), rv);
+  rotF(o2.data(), p2.data(), rv);
+  r.set("f1", ints(load(o1, 0), d * d, tf)).set("f2", ints(load(o1, ns), d * d, tf)).set("tight_f", Json(tf));
+  rotFA(out.data(), in.data(), rv, 2);
+  bool af = true;
+  for (int i = 0; i < 2 * ns; ++i) af = af && out[i] == o1[i] && out[2 * ns + i] == o2[i];
+  r.set("arrays_f", Json(af));
+  r.set("allok", Json(true)).set("ncalls", Json(0LL));
+}
+
 int main(int argc, char** argv) {
   if (argc < 4) return 2;
   LIB = dlopen(argv[1], RTLD_NOW);
@@ -517,6 +570,8 @@ int main(int argc, char** argv) {
         treatRotIso(c, r);
       else if (kind == "rotortho")
         treatRotOrtho(c, r);
+      else if (kind == "rottwo")
+        treatRotTwo(c, r);
       else
         treatHistory(c, r);
     } catch (std::exception& e) {
